@@ -22,6 +22,7 @@
        map   : Value applies the function on every call, Next is the underlying one
        plus  : lhs until its Next fails, then Seq, rhs := rhs, nil and report true (rhs is non-nil = non-empty)
        join  : current inner iterator; when it is exhausted advance lhs, re-invoke the function, skip nil results
+               (the embedded iterator is assigned before the nil test: after exhaustion it may be nil)
    P layer - list semantics: Sem(e) by take-while, drop-while, filter, map, concatenation, flat-map on sequences;
      ForEach visits that list in order and stops with the first error.
 
@@ -122,7 +123,8 @@ JoinNext(s, lhs, cur, c) ==
   ELSE LET v == Value(n[2])
            k == Construct(AppJ(s.j, v[1]))
            c2 == c \o n[3] \o v[2] \o Call(s.j, v[1]) \o k[2]
-       IN IF k[1] # Nil THEN <<TRUE, [s EXCEPT !.lhs = n[2], !.cur = k[1]], c2>> ELSE JoinNext(s, n[2], cur, c2)
+       IN IF k[1] # Nil THEN <<TRUE, [s EXCEPT !.lhs = n[2], !.cur = k[1]], c2>>
+          ELSE JoinNext(s, n[2], Nil, c2)          \* join.Seq = rhs(..) is assigned before it is tested: a nil result stays there
 
 DropLoop(p, s, c) ==
   LET v == Value(s)
@@ -172,12 +174,18 @@ DrainFrom(s) == LET v == Value(s)
                     step == [v |-> v[1], ok |-> n[1], vc |-> v[2], nc |-> n[3]]
                 IN IF n[1] THEN <<step>> \o DrainFrom(n[2]) ELSE <<step>>
 FinalOf(s) == LET n == Next(s) IN IF n[1] THEN FinalOf(n[2]) ELSE n[2]
+\* what Value() of the exhausted iterator answers (nobody promises anything about it): <<item>> - e.g. the element a
+\* takeWhile rejected - or <<"panic">> when it reaches a join whose embedded iterator is the nil left by the last
+\* function result
+RECURSIVE Dangling(_)
+Dangling(s) == CASE s.t = "nil" -> TRUE
+                 [] s.t \in {"slice", "elem"} -> FALSE
+                 [] s.t \in {"tw", "flt", "map", "plus"} -> Dangling(s.s)
+                 [] s.t = "join" -> Dangling(s.cur)
+PostOf(f) == IF Dangling(f) THEN <<"panic">> ELSE <<Value(f)[1]>>
 Run(e) == LET k == Construct(e) IN
           IF k[1] = Nil THEN [nil |-> TRUE, cc |-> k[2], steps |-> <<>>, post |-> <<>>]
-          ELSE LET f == FinalOf(k[1]) IN
-               [nil |-> FALSE, cc |-> k[2], steps |-> DrainFrom(k[1]),
-                \* what the exhausted iterator answers when asked once more (nobody promises anything about it)
-                post |-> <<Value(f)[1], Next(f)[1]>>]
+          ELSE [nil |-> FALSE, cc |-> k[2], steps |-> DrainFrom(k[1]), post |-> PostOf(FinalOf(k[1]))]
 Values(steps) == [i \in 1..Len(steps) |-> steps[i].v]
 
 \* ForEach as coded (the same loop, leaving at the first error): k = index of the failing callback invocation
